@@ -29,6 +29,25 @@ LIB_PROBES = [
     ([L("m", "(export nothing) (begin (define something 1))")], True, "(import (m))\n(+ 1 2)", ["ERR UnboundedSymbol", "OK I 3"]),
     # a library importing another library: only what it re-exports is visible
     ([L("base2", "(export b) (begin (define b 7) (define c 8))"), L("m", "(import (base2)) (export mb) (begin (define mb b))")], True, "(import (m))\nmb\nb", ["OK -", "OK I 7", "ERR UnboundedSymbol"]),
+    # an export declaration between two bodies exports the library's FINAL binding; a name imported and then redefined by the library
+    ([L("conf", "(import (scheme base)) (begin (define level 1)) (export level current-level) (begin (define level 2) (define (current-level) level))")], True,
+     "(import (conf))\nlevel\n(current-level)", ["OK -", "OK I 2", "OK I 2"]),
+    ([L("clamp", "(import (scheme base)) (export max use-max) (begin (define (max a b) 'lib-max) (define (use-max) (max 1 2)))")], True,
+     "(import (clamp))\n(max 1 2)\n(use-max)", ["OK -", "OK Y " + "lib-max".encode().hex(), "OK Y " + "lib-max".encode().hex()]),
+    # exporting under an external name never writes into the library's own environment: an unexported helper spelled like the
+    # external name keeps its value; swapped and chained renames
+    ([L("sc", "(import (scheme base)) (export (rename factor scale) apply-scale) (begin (define factor 100) (define (scale x) (* x 10)) (define (apply-scale x) (scale x)))")], True,
+     "(import (sc))\nscale\n(apply-scale 2)", ["OK -", "OK I 100", "OK I 20"]),
+    ([L("sw", "(export (rename left right) (rename right left)) (begin (define left 1) (define right 2))")], True, "(import (sw))\n(vector left right)", ["OK -", "OK VM 2 I 2 I 1"]),
+    ([L("ch", "(export (rename a b) (rename b c)) (begin (define a 1) (define b 2))")], True, "(import (ch))\n(vector b c)", ["OK -", "OK VM 2 I 1 I 2"]),
+    # expression statements of a library body run in the library's environment: they see and change the library's bindings only
+    ([L("tot", "(import (scheme base)) (export total get-total) (begin (define total 0) (set! total 100) (define (get-total) total))")], True,
+     "(import (tot))\n(vector total (get-total))", ["OK -", "OK VM 2 I 100 I 100"]),
+    ([L("other", "(export total) (begin (define total 7))"), L("tot", "(import (scheme base)) (export get-total) (begin (define total 0) (set! total 100) (define (get-total) total))")], True,
+     "(import (other))\n(import (tot))\n(vector total (get-total))", ["OK -", "OK -", "OK VM 2 I 7 I 100"]),
+    ([L("usesown", "(import (scheme base)) (export r) (begin (define (own) 3) (define r 0) (set! r (own)))")], True, "(import (usesown))\nr", ["OK -", "OK I 3"]),
+    ([L("tools", "(import (scheme base)) (export tool) (begin (define (tool) 9))"), L("callsimp", "(import (scheme base)) (export r) (begin (define r 1) (tool))")], True,
+     "(import (tools))\n(import (callsimp))\n(tool)", ["OK -", "ERR UnboundedSymbol", "OK I 9"]),
     # a library that fails while loading leaves the interpreter untouched
     ([L("bad", "(import (scheme base)) (export x) (begin (define secret 42) (define x (car 5)))")], True, "(import (bad))\n(+ 1 2)\nsecret", ["ERR TypeMisMatch", "OK I 3", "ERR UnboundedSymbol"]),
 ]
@@ -134,82 +153,94 @@ def spec_library_definition(chk, ND):
             post.append(z3.BoolVal(fresh))
         # the interpreter's own environment field is untouched
         post.append(z3.BoolVal(it.fields[0] is importer_env))
-        # (b) declarations in order; each import declaration once, each body statement once, in order
-        order_ok = True
-        exp = []
-        nconc = None
-        for n in range(ND + 1):
-            if ex.ctx.check(nd == n) == z3.sat:
-                nconc = n
-                break
-        specs = []          # (internal name term, external name term) in order of appearance
-        for i in range(nconc or 0):
+        # (b) declarations in order; each import declaration once, each body statement once, in order.
+        # The shape of the definition (declaration count, kinds, statement / spec counts, spec kinds) is an input: whatever
+        # part of it the path left open is enumerated, the obligation is stated for each completion
+        def decl_shapes(i, n, exp, specs):
+            if i == n:
+                yield exp, specs
+                return
             d = ex.seq_item(decls, i).v
             body = ex.project(d, ("f", 0, "parser::parser::LibraryDeclaration"))
             tag = ex.lazy_tag(body)
-            kind = next((k for j, k in enumerate(DECL) if ex.ctx.check(tag == j) == z3.sat), None)
-            if kind == "ImportDeclaration":
-                exp.append(("import", "decl[%d].0.ImportDeclaration.0" % i))
-            elif kind == "Begin":
-                stmts = ex.deref(ex.project(("DC", body, "Begin"), ("f", 0, "std::vec::Vec<parser::parser::Statement>")))
-                k = next((n for n in range(stmts.max + 1) if ex.ctx.check(skel.seq_len_term(stmts) == n) == z3.sat), 0)
-                for j in range(k):
-                    exp.append(("stmt", "%s[%d]" % (stmts.name, j)))
-            elif kind == "Export":
-                xs = ex.deref(ex.project(("DC", body, "Export"), ("f", 0, "std::vec::Vec<error::Located<parser::parser::ExportSpec>>")))
-                k = next((n for n in range(xs.max + 1) if ex.ctx.check(skel.seq_len_term(xs) == n) == z3.sat), 0)
-                for j in range(k):
-                    sp = ex.project(ex.seq_item(xs, j).v, ("f", 0, "parser::parser::ExportSpec"))
-                    st = ex.lazy_tag(sp)
-                    if ex.ctx.check(st == ENUMS["ExportSpec"].index("Direct")) == z3.sat and ex.ctx.check(st == ENUMS["ExportSpec"].index("Rename")) != z3.sat:
-                        nm = ex.project(("DC", sp, "Direct"), ("f", 0, "std::string::String"))
-                        specs.append((nm, nm))
-                    else:
-                        specs.append((ex.project(("DC", sp, "Rename"), ("f", 0, "std::string::String")), ex.project(("DC", sp, "Rename"), ("f", 1, "std::string::String"))))
-        got = [(e["kind"], e.get("decl") or e.get("stmt")) for e in events if e["kind"] in ("import", "stmt")]
-        if failed:
-            # the first failing declaration ends the evaluation with that error; what ran before it is a prefix of the expected sequence
-            pre_ok = same_seq(got, exp[:len(got)])
-            last = [e for e in events if e["kind"] in ("import", "stmt")][-1] if got else None
-            post.append(z3.BoolVal(pre_ok and isinstance(rv, Adt) and rv.variant == "Err" and rv.fields[0] is failed[0]["error"] and not lookups and len(failed) == 1))
-        else:
-            post.append(z3.BoolVal(same_seq(got, exp)))
-            # (c) exports
-            unbound = [e for e in events if e["kind"] == "lookup_none"]
-            for j, lk in enumerate(lookups):
-                if j < len(specs):
-                    post.append(lk["name"].t == specs[j][0].t)
+            for kind in skel.each_value(ex, tag, range(len(DECL))):
+                kind = DECL[kind]
+                if kind == "ImportDeclaration":
+                    yield from decl_shapes(i + 1, n, exp + [("import", "decl[%d].0.ImportDeclaration.0" % i)], specs)
+                elif kind == "Begin":
+                    stmts = ex.deref(ex.project(("DC", body, "Begin"), ("f", 0, "std::vec::Vec<parser::parser::Statement>")))
+                    for k in skel.each_value(ex, skel.seq_len_term(stmts), range(stmts.max + 1)):
+                        yield from decl_shapes(i + 1, n, exp + [("stmt", "%s[%d]" % (stmts.name, j)) for j in range(k)], specs)
+                elif kind == "Export":
+                    xs = ex.deref(ex.project(("DC", body, "Export"), ("f", 0, "std::vec::Vec<error::Located<parser::parser::ExportSpec>>")))
+
+                    def spec_shapes(j, k, acc):
+                        if j == k:
+                            yield acc
+                            return
+                        sp = ex.project(ex.seq_item(xs, j).v, ("f", 0, "parser::parser::ExportSpec"))
+                        st = ex.lazy_tag(sp)
+                        for which in skel.each_value(ex, st, [ENUMS["ExportSpec"].index("Direct"), ENUMS["ExportSpec"].index("Rename")]):
+                            if which == ENUMS["ExportSpec"].index("Direct"):
+                                nm = ex.project(("DC", sp, "Direct"), ("f", 0, "std::string::String"))
+                                yield from spec_shapes(j + 1, k, acc + [(nm, nm)])
+                            else:
+                                yield from spec_shapes(j + 1, k, acc + [(ex.project(("DC", sp, "Rename"), ("f", 0, "std::string::String")), ex.project(("DC", sp, "Rename"), ("f", 1, "std::string::String")))])
+                    for k in skel.each_value(ex, skel.seq_len_term(xs), range(xs.max + 1)):
+                        for more in spec_shapes(0, k, []):
+                            yield from decl_shapes(i + 1, n, exp, specs + more)
                 else:
-                    post.append(z3.BoolVal(False))
-            if unbound:
-                is_err = isinstance(rv, Adt) and rv.variant == "Err" and not isinstance(rv.fields[0], Opaque)
-                post.append(z3.BoolVal(is_err and nl.err_kind(ex, rv.fields[0]) == "UnboundedSymbol"))
-            else:
-                post.append(z3.BoolVal(len(lookups) == len(specs)))
-                ok = isinstance(rv, Adt) and rv.variant == "Ok"
-                post.append(z3.BoolVal(ok))
-                if ok:
-                    lib = rv.fields[0]
-                    m = lib.fields[1] if isinstance(lib, Adt) else None
-                    if not isinstance(m, MapObj):
-                        post.append(z3.BoolVal(False))
+                    yield from decl_shapes(i + 1, n, exp, specs)
+
+        post_common = post
+        for nconc in skel.each_value(ex, nd, range(ND + 1)):
+            for exp, specs in decl_shapes(0, nconc, [], []):
+                post = list(post_common)
+                order_ok = True
+                got = [(e["kind"], e.get("decl") or e.get("stmt")) for e in events if e["kind"] in ("import", "stmt")]
+                if failed:
+                    # the first failing declaration ends the evaluation with that error; what ran before it is a prefix of the expected sequence
+                    pre_ok = same_seq(got, exp[:len(got)])
+                    last = [e for e in events if e["kind"] in ("import", "stmt")][-1] if got else None
+                    post.append(z3.BoolVal(pre_ok and isinstance(rv, Adt) and rv.variant == "Err" and rv.fields[0] is failed[0]["error"] and not lookups and len(failed) == 1))
+                else:
+                    post.append(z3.BoolVal(same_seq(got, exp)))
+                    # (c) exports
+                    unbound = [e for e in events if e["kind"] == "lookup_none"]
+                    for j, lk in enumerate(lookups):
+                        if j < len(specs):
+                            post.append(lk["name"].t == specs[j][0].t)
+                        else:
+                            post.append(z3.BoolVal(False))
+                    if unbound:
+                        is_err = isinstance(rv, Adt) and rv.variant == "Err" and not isinstance(rv.fields[0], Opaque)
+                        post.append(z3.BoolVal(is_err and nl.err_kind(ex, rv.fields[0]) == "UnboundedSymbol"))
                     else:
-                        idx = {id(lk["value"]): j for j, lk in enumerate(lookups)}
-                        for (k, p, cell) in m.entries:
-                            j = idx.get(id(cell.v))
-                            if j is None:
-                                post.append(z3.Not(p))
-                                continue
-                            later = [specs[t][1].t != k.t for t in range(j + 1, len(specs))]
-                            post.append(z3.Implies(p, z3.And(k.t == specs[j][1].t, *later)))
-                        for j in range(len(specs)):
-                            post.append(z3.Or(*[z3.And(p, k.t == specs[j][1].t) for (k, p, cell) in m.entries]) if m.entries else z3.BoolVal(False))
-        if __import__("os").environ.get("VERIF_DEBUG_POST"):
-            for i_, c_ in enumerate(post):
-                if ex.ctx.check(z3.Not(c_)) == z3.sat:
-                    print("   failing conjunct", i_, str(c_)[:200], "events", [(e["kind"], e.get("decl") or e.get("stmt")) for e in events][:6], "exp", exp[:6])
-        chk.oblige(ex, unit, "the body is evaluated only in a fresh root frame (never the importer's); declarations in order, first error wins; the library holds exactly one binding per export spec, under the external name, with the value looked up under the internal name",
-                   z3.And(*post), {}, replay)
+                        post.append(z3.BoolVal(len(lookups) == len(specs)))
+                        ok = isinstance(rv, Adt) and rv.variant == "Ok"
+                        post.append(z3.BoolVal(ok))
+                        if ok:
+                            lib = rv.fields[0]
+                            m = lib.fields[1] if isinstance(lib, Adt) else None
+                            if not isinstance(m, MapObj):
+                                post.append(z3.BoolVal(False))
+                            else:
+                                idx = {id(lk["value"]): j for j, lk in enumerate(lookups)}
+                                for (k, p, cell) in m.entries:
+                                    j = idx.get(id(cell.v))
+                                    if j is None or j >= len(specs):
+                                        post.append(z3.Not(p))
+                                        continue
+                                    later = [specs[t][1].t != k.t for t in range(j + 1, len(specs))]
+                                    post.append(z3.Implies(p, z3.And(k.t == specs[j][1].t, *later)))
+                                for j in range(len(specs)):
+                                    post.append(z3.Or(*[z3.And(p, k.t == specs[j][1].t) for (k, p, cell) in m.entries]) if m.entries else z3.BoolVal(False))
+                if __import__("os").environ.get("VERIF_DEBUG_POST"):
+                    for i_, c_ in enumerate(post):
+                        if ex.ctx.check(z3.Not(c_)) == z3.sat:
+                            print("   failing conjunct", i_, str(c_)[:200], "events", [(e["kind"], e.get("decl") or e.get("stmt")) for e in events][:6], "exp", exp[:6])
+                chk.oblige(ex, unit, "the body is evaluated only in a fresh root frame (never the importer's); declarations in order, first error wins; the library holds exactly one binding per export spec, under the external name, with the value looked up under the internal name",
+                           z3.And(*post), {}, replay)
 
 
 def spec_single_instance(chk):
